@@ -9,7 +9,7 @@ import hashlib
 
 VERIF = os.path.dirname(os.path.dirname(os.path.abspath(__file__)))
 REPO = os.environ.get('PGMV_REPO', '/repo')
-BUILD = os.path.join(VERIF, 'build')
+BUILD = os.environ.get('PGMV_BUILD', os.path.join(VERIF, 'build'))
 
 # property -> evidence level (default 'proof')
 LEVELS = {}
@@ -83,7 +83,7 @@ def run_link(link, tier, seed):
 
 
 def write_replay(prop, rec, f):
-    d = os.path.join(VERIF, 'replays', prop)
+    d = os.path.join(os.environ.get('PGMV_REPLAY_DIR', os.path.join(VERIF, 'replays')), prop)
     os.makedirs(d, exist_ok=True)
     what = f.get('obligation') or f.get('what')
     h = hashlib.sha1(((rec.get('tag') or rec.get('name')) + what).encode()).hexdigest()[:10]
@@ -142,6 +142,16 @@ def try_reproduce(prop, rec, f, path):
     return bool(found)
 
 
+def link_replay(path, first):
+    """further failed obligations of the same unit share the reproduction found for the first one"""
+    body = json.load(open(path))
+    b0 = json.load(open(first))
+    for k in ('reproduced_on_real_code', 'input', 'replay_args', 'link', 'real_code_failure', 'note'):
+        if k in b0:
+            body[k] = b0[k]
+    json.dump(body, open(path, 'w'), indent=1, default=str)
+
+
 def run_replay(prop, path):
     body = json.load(open(path))
     print(json.dumps({k: body.get(k) for k in ('property', 'unit', 'failed_obligation', 'clause', 'input', 'reproduced_on_real_code')}, indent=1))
@@ -171,3 +181,20 @@ def run_replay(prop, path):
 
 # unit name -> reproducer program
 REPRO = {}
+
+# ---------------------------------------------------------------------------------------------------
+# registry
+NOWARN = ['-Wno-deprecated-declarations']
+L(name='md_contains_link', props=['C14'], src='md_link.cpp', flags=NOWARN, args={'quick': ['contains', 'quick'], 'thorough': ['contains', 'thorough']},
+  bound={'quick': 'all subsets of a 3x3 grid (with duplicates) + 3 dense 64x64 grids, 2-D, uint32/uint64, Epsilon 4; every query point of the grid + 1',
+         'thorough': 'same with 12 dense grids'},
+  rule='real MultidimensionalPGMIndex::contains vs. std::multiset membership; a case is one (point set, query) pair; distinct = point sets',
+  assumptions=['bounded link: never counted as proved'])
+L(name='md_range_link', props=['C13'], src='md_link.cpp', flags=NOWARN, args={'quick': ['range', 'quick'], 'thorough': ['range', 'thorough']},
+  bound={'quick': 'all subsets of a 3x3 grid + 3 dense 64x64 grids (every cell / random holes / duplicates), 2-D, uint32/uint64; grid of boxes + all one-cell-thick slabs',
+         'thorough': '12 dense 64x64 grids + 3 dense 128x128 grids'},
+  rule='real range(min,max)..end() as a multiset vs. brute-force filter; a case is one (point set, box) pair; distinct = point sets',
+  assumptions=['bounded link: never counted as proved'])
+REPRO['md_contains'] = dict(name='md_contains_link', src='md_link.cpp', flags=NOWARN, args=['contains', 'quick'])
+REPRO['md_advance'] = dict(name='md_range_link', src='md_link.cpp', flags=NOWARN, args=['range', 'quick'])
+REPRO['md_ctor'] = dict(name='md_range_link', src='md_link.cpp', flags=NOWARN, args=['range', 'quick'])
